@@ -135,7 +135,14 @@ class Model:
         self._subclasses: dict[str, list] = {}
         self._load()
         self._link()
+        self._normalise()
         self._apply_roles()
+
+    def _normalise(self):
+        """Every function of the package is rewritten in place into the normal form of engine.normal (line numbers kept)."""
+        from .normal import normalise
+        for mi in self.modules.values():
+            normalise(mi.tree)
 
     def _apply_roles(self):
         """Rename the locals of the functions listed in rules.roles.ROLES to their role names, in place (line numbers kept).
